@@ -219,6 +219,11 @@ def check(repo: Repo, rep: Report) -> None:
               and any(u(t) == "self._clock" for t in s.node.targets)]
     ok = bool(finals) and all(any(isinstance(x, ast.Name) and x.id in targets for x in ast.walk(s.node.value)) for s in finals)
     rep.ob("A1-advance-bounds", adv, "clock = target after the loop", ok, "advance_to does not leave the clock at the target")
+    kinds_ = {p_ for s in finals for e, p_ in s.ctx.guards if isinstance(e, ast.Call) and call_name(e) == "isinstance" and u(e.args[0]) == "self._clock"}
+    unguarded_ = any(not [1 for e, p_ in s.ctx.guards if isinstance(e, ast.Call) and call_name(e) == "isinstance" and u(e.args[0]) == "self._clock"] for s in finals)
+    rep.ob("A1-advance-bounds", adv, f"clock = target for both clock kinds ({'any' if unguarded_ else sorted(kinds_)})", unguarded_ or kinds_ == {True, False},
+           "advance_to sets the clock to the target for one clock kind only: on the other kind (numeric TestScheduler / datetime "
+           "HistoricalScheduler) the clock stays at the last item's due time and `now` lags behind the time advanced to")
     rep.ob("A1-advance-bounds", adv, "clock = target only when the run ended normally (not in a finally)", bool(finals) and not any(s.ctx.finals for s in finals),
            "advance_to moves the clock to the target in a `finally`: when an action raises, the clock jumps past the actions still queued "
            "before the target; they later run at a clock beyond their due time (and a resumed advance_to to the same time returns at once)")
